@@ -158,6 +158,83 @@ impl<T: Rec, Fut: Future<Output = T>> Consumer<T, Fut> for Sink {
     }
 }
 
+/// Harness sink that keeps up to `BUF` futures in flight and completes them in a solver-chosen
+/// order (what `FuturesUnordered` inside the real terminal operations does): `send` parks the
+/// future, `flush` polls the parked futures - starting at a solver-chosen slot - until all are
+/// done. With it the completion order differs from the source order whenever an earlier item's
+/// future pends longer than a later one's.
+pub const BUF: usize = 3;
+pub struct BufSink<F> {
+    slots: [Option<F>; BUF],
+}
+impl<F> BufSink<F> {
+    pub fn new() -> Self {
+        BufSink { slots: [None, None, None] }
+    }
+}
+
+impl<T: Rec, Fut: Future<Output = T>> Consumer<T, Fut> for BufSink<Fut> {
+    type Output = ();
+
+    async fn send(self: Pin<&mut Self>, fut: Fut) -> ConsumerState {
+        // SAFETY: the slots are structurally pinned; a parked future is never moved again.
+        let this = unsafe { self.get_unchecked_mut() };
+        let mut i = 0;
+        while i < BUF {
+            if this.slots[i].is_none() {
+                this.slots[i] = Some(fut);
+                return ConsumerState::Continue;
+            }
+            i += 1;
+        }
+        assert!(false, "C15: more items in flight than the source has");
+        ConsumerState::Break
+    }
+
+    async fn progress(self: Pin<&mut Self>) -> ConsumerState {
+        ConsumerState::Empty
+    }
+
+    async fn flush(self: Pin<&mut Self>) -> Self::Output {
+        // SAFETY: see `send`.
+        let this = unsafe { self.get_unchecked_mut() };
+        core::future::poll_fn(|cx| {
+            let first = any_u8() as usize;
+            assume(first < BUF);
+            let mut left = 0;
+            let mut k = 0;
+            while k < BUF {
+                let i = if first + k >= BUF { first + k - BUF } else { first + k };
+                let mut finished = false;
+                if let Some(f) = this.slots[i].as_mut() {
+                    // SAFETY: see `send`.
+                    match unsafe { Pin::new_unchecked(f) }.poll(cx) {
+                        Poll::Ready(v) => {
+                            let l = log();
+                            assert!(l.nrecv < LMAX, "C15: more items processed than the source has");
+                            l.recv[l.nrecv] = v.rec();
+                            l.nrecv += 1;
+                            finished = true;
+                        }
+                        Poll::Pending => left += 1,
+                    }
+                }
+                if finished {
+                    this.slots[i] = None;
+                }
+                k += 1;
+            }
+            if left == 0 {
+                Poll::Ready(())
+            } else {
+                Poll::Pending
+            }
+        })
+        .await;
+        log().flushed = true;
+    }
+}
+
 /// The map closure: counts its invocations per source position.
 #[derive(Clone)]
 pub struct Count;
@@ -250,6 +327,63 @@ fn check(expect: usize, len: usize, enumerated: bool, mapped: bool) {
     }
     let _ = len;
 }
+
+/// Like `check`, for sinks that complete futures out of order: the set of processed items is
+/// exactly the first `expect` source items, each once; `enumerated`: every item carries its own
+/// source position as index.
+fn check_unordered(expect: usize, enumerated: bool, mapped: bool) {
+    let l = log();
+    assert!(l.flushed, "C15: consumer was not flushed");
+    assert!(
+        l.nrecv == expect,
+        "C15: take(n) did not process exactly min(n, len) items (none for n = 0)"
+    );
+    let mut seen = [0u8; LMAX];
+    let mut k = 0;
+    while k < LMAX {
+        if k < l.nrecv {
+            let (pos, idx) = l.recv[k];
+            assert!((pos as usize) < expect, "C15: processed items are not the first ones of the source");
+            seen[pos as usize] += 1;
+            if enumerated {
+                assert!(idx == pos, "C15: enumerate index is not the item's position in the source");
+            }
+        }
+        k += 1;
+    }
+    let mut k = 0;
+    while k < LMAX {
+        if k < expect {
+            assert!(seen[k] == 1, "C15: an item was processed twice or not at all");
+        }
+        if mapped {
+            let want = if k < expect { 1 } else { 0 };
+            assert!(l.mapped[k] == want, "C15: map closure not invoked exactly once per processed item");
+        }
+        k += 1;
+    }
+}
+
+/// Adapter stack in front of the out-of-order sink.
+macro_rules! cobufproof {
+    ($name:ident, $len:literal, |$n:ident| $stack:expr, expect = $expect:expr, enumerated = $e:expr, mapped = $m:expr) => {
+        #[cfg(kani)]
+        #[kani::proof]
+        #[kani::unwind(7)]
+        pub fn $name() {
+            reset_log();
+            unsafe { PENDS_MAX = 1 };
+            let $n = sym_n();
+            let done = block_on($stack.drive(BufSink::new()), $len + 3);
+            assert!(done, "C15: driver did not finish although every item future completed");
+            check_unordered($expect, $e, $m);
+            cover!(log().nrecv == 2 && log().recv[0].0 == 1, "second item completed first");
+        }
+    };
+}
+cobufproof!(co_enumerate_buf_l2, 2, |n| Src { len: 2 }.enumerate(), expect = 2, enumerated = true, mapped = false);
+cobufproof!(co_map_enumerate_buf_l2, 2, |n| Src { len: 2 }.map(count_map).enumerate(), expect = 2, enumerated = true, mapped = true);
+cobufproof!(co_enumerate_take_buf_l2, 2, |n| Src { len: 2 }.enumerate().take(n), expect = min(n, 2), enumerated = true, mapped = false);
 
 fn sym_n() -> usize {
     let n = any_u8() as usize;
